@@ -184,6 +184,8 @@ struct Item<T> {
     val: T,
     desc: String,
     json: J,
+    /// contains a Number that carries a unit
+    has_unit: bool,
 }
 
 fn fail(local: &mut Local, law: &str, ty: &str, items: &[&Item<impl Sized>], detail: String) {
@@ -272,36 +274,62 @@ where
             }
         }
     }
-    // consequences: collections see exactly the ==-classes
-    let mut classes: Vec<usize> = vec![];
-    for i in 0..n {
-        if !classes.iter().any(|&c| eq[c * n + i]) {
-            classes.push(i);
+    // consequences: collections see exactly the ==-classes — on the whole pool and on its part
+    // without unit-carrying Numbers (sorting compares through `lt`, i.e. partial_cmp, which is
+    // silent between Numbers of different units: known finding; the unit-free part has no excuse)
+    let mut nclasses = 0;
+    for (part, keep_units) in [("all", true), ("unitless", false)] {
+        let idx: Vec<usize> = (0..n).filter(|&i| keep_units || !pool[i].has_unit).collect();
+        let mut classes: Vec<usize> = vec![];
+        for &i in &idx {
+            if !classes.iter().any(|&c| eq[c * n + i]) {
+                classes.push(i);
+            }
         }
-    }
-    let nclasses = classes.len();
-    let hs: HashSet<T, std::hash::BuildHasherDefault<DefaultHasher>> = pool.iter().map(|i| i.val.clone()).collect();
-    let bs: BTreeSet<T> = pool.iter().map(|i| i.val.clone()).collect();
-    let bm: BTreeMap<&T, usize> = pool.iter().enumerate().map(|(i, it)| (&it.val, i)).collect();
-    let mut sorted: Vec<T> = pool.iter().map(|i| i.val.clone()).collect();
-    sorted.sort();
-    sorted.dedup();
-    local.eval();
-    for (name, got) in [("HashSet", hs.len()), ("BTreeSet", bs.len()), ("BTreeMap-keys", bm.len()), ("sort+dedup", sorted.len())] {
-        if got != nclasses {
-            let sig = format!("collection-size:{ty}:{name}");
-            local.fail(&sig, json!({"type": ty, "law": "collection-size", "collection": name}), format!("{name} of the {n}-value pool has {got} elements, == has {nclasses} classes"));
+        let ncl = classes.len();
+        if keep_units {
+            nclasses = ncl;
+        }
+        let sub: Vec<T> = idx.iter().map(|&i| pool[i].val.clone()).collect();
+        let hs: HashSet<T, std::hash::BuildHasherDefault<DefaultHasher>> = sub.iter().cloned().collect();
+        local.eval();
+        if hs.len() != ncl {
+            local.fail(&format!("collection-size:{ty}:HashSet"), json!({"type": ty, "law": "collection-size", "collection": "HashSet"}), format!("HashSet of the {}-value pool ({part}) has {} elements, == has {ncl} classes", sub.len(), hs.len()));
+        }
+        let ordered = guarded(|| {
+            let bs: BTreeSet<T> = sub.iter().cloned().collect();
+            let bm: BTreeMap<&T, usize> = sub.iter().enumerate().map(|(i, v)| (v, i)).collect();
+            let mut sorted: Vec<T> = sub.clone();
+            sorted.sort();
+            let in_order = sorted.windows(2).all(|w| w[0].cmp(&w[1]) != Ordering::Greater);
+            sorted.dedup();
+            (bs.len(), bm.len(), sorted.len(), in_order)
+        });
+        let mixed_units = keep_units && pool.iter().any(|i| i.has_unit);
+        let sig = |what: &str| if mixed_units { "sort-unsafe:numbers-with-different-units".to_string() } else { format!("collection-size:{ty}:{what}") };
+        match ordered {
+            Err(p) => local.fail(&sig("sort-panics"), json!({"type": ty, "law": "collection-size", "collection": "sort-panics", "part": part}), format!("sorting / BTreeSet of the {}-value {ty} pool ({part}) panics: {p}", sub.len())),
+            Ok((bs, bm, sorted, in_order)) => {
+                for (name, got) in [("BTreeSet", bs), ("BTreeMap-keys", bm), ("sort+dedup", sorted)] {
+                    if got != ncl {
+                        local.fail(&sig(name), json!({"type": ty, "law": "collection-size", "collection": name, "part": part}), format!("{name} of the {}-value {ty} pool ({part}) has {got} elements, == has {ncl} classes", sub.len()));
+                    }
+                }
+                if !in_order {
+                    local.fail(&sig("sort-unsorted"), json!({"type": ty, "law": "collection-size", "collection": "sort-unsorted", "part": part}), format!("sort() of the {ty} pool ({part}) is not sorted by cmp"));
+                }
+            }
         }
     }
     local.count_n(&format!("classes:{ty}"), nclasses as u64);
 }
 
 fn items(vs: &[V]) -> Vec<Item<Value>> {
-    vs.iter().map(|v| Item { val: to_lib(v), desc: shape_sig(v), json: to_json(v) }).collect()
+    vs.iter().map(|v| Item { val: to_lib(v), desc: shape_sig(v), json: to_json(v), has_unit: has_unit(v) }).collect()
 }
 
 fn typed<T: Clone>(all: &[Item<Value>], pick: &dyn Fn(&Value) -> Option<T>) -> Vec<Item<T>> {
-    all.iter().filter_map(|i| pick(&i.val).map(|t| Item { val: t, desc: i.desc.clone(), json: i.json.clone() })).collect()
+    all.iter().filter_map(|i| pick(&i.val).map(|t| Item { val: t, desc: i.desc.clone(), json: i.json.clone(), has_unit: i.has_unit })).collect()
 }
 
 fn run_type(ty: &str, all: &[Item<Value>], local: &mut Local) {
@@ -332,7 +360,7 @@ fn run_type(ty: &str, all: &[Item<Value>], local: &mut Local) {
             for i in all {
                 if let Value::Grid(g) = &i.val {
                     for c in &g.columns {
-                        cols.push(Item { val: c.clone(), desc: i.desc.clone(), json: i.json.clone() });
+                        cols.push(Item { val: c.clone(), desc: i.desc.clone(), json: i.json.clone(), has_unit: i.has_unit });
                     }
                 }
             }
@@ -700,6 +728,12 @@ pub fn replay(case: &J) -> Verdict {
     } else {
         format!("{law}:{ty}:{}", descs.join("/"))
     };
+    if law == "collection-size" {
+        return match local.fails.values().find(|f| f.case["law"] == "collection-size" && f.case["type"] == case["type"] && f.case["collection"] == case["collection"] && f.case["part"] == case["part"]) {
+            Some(f) => Err((f.sig.clone(), f.detail.clone())),
+            None => Ok(()),
+        };
+    }
     let mut hits: Vec<_> = local
         .fails
         .values()
